@@ -14,7 +14,7 @@ RULE = ("EVERY listing of length 1..L over a 6-instruction alphabet (0-3 operand
         "operand-less) x EVERY single presentation edit at EVERY position: label line inserted/removed/renamed (names with "
         "spaces, commas, parentheses), blank line, section header, elision line '\\t...', file-format header dropped, DOS (CRLF) line endings, "
         "<sym+off> annotation added/changed/removed (incl. C++-style names with ', ' and '|'), '# comment' added (also on "
-        "operand-less instructions), indentation 0..8, raw-byte column 1..7 bytes with different values, byte-continuation "
+        "operand-less instructions), indentation 0..8, raw-byte column 1..15 bytes (8..15 as under `objdump --insn-width`) with different values, byte-continuation "
         "line inserted; EVERY subset of the 7 preamble lines (blank, banner, two blanks, section header, blank, label) on listings of length 1..2; plus EVERY pair of edit kinds at the first two positions and EVERY (global edit, positional edit kind) pair; non-ASCII symbol names; symbol names, annotations and comments of 1200..5000 characters; listings of 65540 / 70001 instructions in four presentations (bare, a blank line on top, labels every 1000 instructions, no header); and an environment family: the CLI run with LC_ALL=C / PYTHONUTF8=0 on listings whose labels and comments contain non-ASCII UTF-8 names must report what it reports for ASCII names. Oracle (real code vs real code): the "
         "instruction stream and the all-matches result lists of 8 fixed rules are identical for the edited and the "
         "canonical presentation, also under a rule with valid_addr_range and a full-match flag (which installs the optional instruction observer). Non-trivial = every edited listing (each differs textually from the canonical one).")
@@ -91,7 +91,7 @@ def edits_at(i, inst):
     for ind in range(0, 9):
         if ind != 2:
             e.append((f"indent{ind}", lambda p, ind=ind: p.line[i].update(indent=ind)))
-    for nb in range(1, 8):
+    for nb in range(1, 16):     # 8..15: what `objdump --insn-width=N` prints for a long instruction on one line
         if nb != 3:
             e.append((f"bytes{nb}", lambda p, nb=nb: p.line[i].update(nbytes=nb)))
     for seed in (1, 0x5b, 0xb8):
